@@ -3135,7 +3135,7 @@ func smallCoalesceValueIndependent(c *core.Ctx, b *ob) {
 // the skipper of undeclared fields must, like the decoder of declared ones, consume nothing for
 // TRUE/FALSE fields under that feature.
 func smallSkipCoalescedBool(c *core.Ctx, b *ob) {
-	props := []string{"C08", "C04"}
+	props := []string{"C08", "C04", "C13"}
 	key := "skip:coalesced-bool"
 	fn := c.Lookup("thrift.skipField")
 	if fn == nil {
@@ -5375,6 +5375,10 @@ func smallWave20(c *core.Ctx, b *ob) {
 						maxIncl = lim
 					default:
 						continue
+					}
+					// a test on the field number bounds the tag, which is number<<3 | wire type
+					if strings.HasSuffix(stripConv(bo.X).Type().String(), "fieldNumber") && maxIncl < 1<<40 {
+						maxIncl = maxIncl<<3 | 7
 					}
 					n++
 					key := fmt.Sprintf("size-fast-path:%s:returns-%d", name, k)
@@ -7806,6 +7810,415 @@ func smallWave25(c *core.Ctx, b *ob) {
 			b.addP(props, core.Violation, key, bad, "a 64-bit value is converted to the platform-width int and then used in arithmetic at "+bad+": on a target with 32-bit int the product wraps (days since the epoch times 86400 exceeds 2^31 from 2038 on), so Parse returns another instant there than time.Parse does — 2038-01-19T03:14:08Z comes back as 1901-12-13T20:45:52Z")
 		default:
 			b.addP(props, core.Discharged, key, "-", fmt.Sprintf("%d functions of package iso8601: no 64-bit value is narrowed to int/uint before arithmetic", n))
+		}
+	}
+	// (w) the compact reader bounds a length by what an int32 holds before converting it: the
+	// specification's lengths are 32-bit, and a bound at the platform's int lets a ten-byte varint
+	// through to make(), which panics (makeslice: len out of range) or allocates petabytes
+	{
+		props := []string{"C08"}
+		key := "compact-length:bounded-by-int32"
+		fn := c.Lookup("thrift.(*compactReader).ReadLength")
+		if fn == nil {
+			b.addP(props, core.Undecided, key, "-", "thrift.(*compactReader).ReadLength not found")
+		} else {
+			n, bad := 0, ""
+			for _, ci := range callsIn(fn) {
+				g := staticCallee(ci.Common())
+				if g == nil || !strings.HasPrefix(g.Name(), "readUvarint") && !strings.HasPrefix(g.Name(), "readVarint") {
+					continue
+				}
+				n++
+				okB := false
+				for _, a := range ci.Common().Args {
+					if k, isK := constUint(a); isK && k <= math.MaxInt32 && k > 0 {
+						okB = true
+					}
+				}
+				if !okB {
+					bad = c.InstrPos(ci)
+				}
+			}
+			switch {
+			case n == 0:
+				b.addP(props, core.Undecided, key, c.FuncPos(fn), "ReadLength does not read its value with readUvarint")
+			case bad != "":
+				b.addP(props, core.Violation, key, bad, "compactReader.ReadLength reads a length without a constant bound of at most MaxInt32: a length varint of 2^48 and more reaches make([]byte, n) — ReadBytes, ReadString and Unmarshal panic with makeslice: len out of range instead of returning an error")
+			default:
+				b.addP(props, core.Discharged, key, c.FuncPos(fn), "the length is read with a bound of at most MaxInt32")
+			}
+		}
+	}
+	// (x) what skipValues returns is the error of skip passed through dontExpectEOF: input that ends
+	// between two elements of a container being skipped is truncated input (io.ErrUnexpectedEOF),
+	// not a clean end of stream (io.EOF)
+	{
+		props := []string{"C08"}
+		key := "skip-values:eof-is-unexpected"
+		fn := c.Lookup("thrift.skipValues")
+		if fn == nil {
+			b.addP(props, core.Undecided, key, "-", "thrift.skipValues not found")
+		} else {
+			n, bad := 0, ""
+			for _, r := range returnsOf(fn) {
+				if len(r.Results) != 1 || isNilConst(r.Results[0]) {
+					continue
+				}
+				n++
+				okR := false
+				for _, o := range origins(r.Results[0]) {
+					if call, isC := o.(*ssa.Call); isC {
+						if g := staticCallee(call.Common()); g != nil && g.Name() == "dontExpectEOF" {
+							okR = true
+						}
+					}
+				}
+				if !okR {
+					bad = c.InstrPos(r)
+				}
+			}
+			switch {
+			case n == 0:
+				b.addP(props, core.Undecided, key, c.FuncPos(fn), "skipValues returns no error")
+			case bad != "":
+				b.addP(props, core.Violation, key, bad, "skipValues returns the error of skip as it is: when the input is cut exactly between two elements of a list, set or map that is being skipped (a type the target does not expect), Unmarshal reports io.EOF — a clean end — instead of io.ErrUnexpectedEOF")
+			default:
+				b.addP(props, core.Discharged, key, c.FuncPos(fn), "every error returned went through dontExpectEOF")
+			}
+		}
+	}
+	// (y) an array decoded into an interface is a slice of its own: the []any the interface held
+	// before belongs to whoever kept it from the previous decode
+	{
+		props := []string{"C10", "C02"}
+		key := "decode-interface:array-is-fresh"
+		fn := c.Lookup("json.(decoder).decodeInterface")
+		if fn == nil {
+			b.addP(props, core.Undecided, key, "-", "json.(decoder).decodeInterface not found")
+		} else {
+			n, bad := 0, ""
+			for _, ci := range callsIn(fn) {
+				g := staticCallee(ci.Common())
+				if g == nil || g.Name() != "decodeSlice" {
+					continue
+				}
+				for _, a := range ci.Common().Args {
+					cell := cellOf(stripConv(a))
+					if cell == nil || !isSliceType(derefType(cell.Type())) {
+						continue
+					}
+					n++
+					for _, sv := range cellStores(cell) {
+						fresh := true
+						for _, o := range origins(sv) {
+							switch x := o.(type) {
+							case *ssa.MakeSlice:
+							case *ssa.Slice:
+								// make with constant sizes: a new array, sliced
+								if _, isNew := x.X.(*ssa.Alloc); !isNew {
+									fresh = false
+								}
+							case *ssa.Call:
+								// what decodeSlice itself stored back
+							case *ssa.Extract:
+								if _, fromCall := x.Tuple.(*ssa.Call); !fromCall {
+									fresh = false // the result of a type assertion on the old value
+								}
+							default:
+								if !isNilConst(o) {
+									fresh = false
+								}
+							}
+						}
+						if _, isTA := sv.(*ssa.TypeAssert); isTA {
+							fresh = false
+						}
+						if !fresh {
+							bad = c.InstrPos(ci)
+						}
+					}
+				}
+			}
+			switch {
+			case n == 0:
+				b.addP(props, core.Undecided, key, c.FuncPos(fn), "decodeInterface does not decode arrays with decodeSlice into a local slice")
+			case bad != "":
+				b.addP(props, core.Violation, key, bad, "decodeInterface decodes an array into a slice that is not freshly made (the one the interface already held): a []any the caller kept from the previous Decode into the same variable is overwritten by the next one")
+			default:
+				b.addP(props, core.Discharged, key, c.FuncPos(fn), "the slice handed to decodeSlice is made by this call")
+			}
+		}
+	}
+	// (z) whether a varint fits its field is a question about its value: a non-minimal encoding
+	// (padded with 0x80 … 0x00) is as legal as the short one, so the scalar decoders never judge by
+	// the number of bytes decodeVarint consumed
+	{
+		props := []string{"C12"}
+		key := "scalar-decoders:overflow-judged-by-value"
+		n, bad := 0, ""
+		for _, fn := range c.RepoFunctions() {
+			name := shortName(fn)
+			if fn.Blocks == nil || !strings.HasPrefix(name, "proto.decode") || name == "proto.decodeVarint" {
+				continue
+			}
+			for _, ci := range callsIn(fn) {
+				g := staticCallee(ci.Common())
+				call, isCall := ci.(*ssa.Call)
+				if g == nil || !isCall || !(g.Name() == "decodeVarint" || g.Name() == "decodeVarintZigZag") {
+					continue
+				}
+				n++
+				for _, blk := range fn.Blocks {
+					for _, in := range blk.Instrs {
+						bo, ok := in.(*ssa.BinOp)
+						if !ok {
+							continue
+						}
+						switch bo.Op {
+						case token.GTR, token.GEQ, token.LSS, token.LEQ, token.EQL, token.NEQ:
+						default:
+							continue
+						}
+						for _, side := range []ssa.Value{bo.X, bo.Y} {
+							if ex, isE := stripConv(side).(*ssa.Extract); isE && ex.Tuple == ssa.Value(call) && ex.Index == 1 {
+								if _, isK := constInt(bo.Y); isK {
+									bad = c.InstrPos(bo) + " (" + name + ")"
+								}
+							}
+						}
+					}
+				}
+			}
+		}
+		switch {
+		case n == 0:
+			b.addP(props, core.Undecided, key, "-", "no scalar decoder calls decodeVarint")
+		case bad != "":
+			b.addP(props, core.Violation, key, bad, "a scalar decoder compares the number of bytes its varint took with a constant at "+bad+": a value that fits the field but is written non-minimally (300 as ac 82 80 80 80 00 in a uint32 field) is rejected as an overflow, although every protobuf decoder accepts padded varints")
+		default:
+			b.addP(props, core.Discharged, key, "-", fmt.Sprintf("%d scalar decoders call decodeVarint; none tests the byte count against a constant", n))
+		}
+	}
+	// (aa) a package-level map is read in place (looked up, ranged over, measured): its value is
+	// never copied into a variable or a result — a map handed out that way is one object shared by
+	// every caller, and the decoder itself writes the next document's members into it
+	{
+		props := []string{"C09", "C10"}
+		key := "global-map:never-handed-out"
+		n, bad := 0, ""
+		for _, fn := range c.RepoFunctions() {
+			name := shortName(fn)
+			if fn.Blocks == nil || !(strings.HasPrefix(name, "json.") || strings.HasPrefix(name, "proto.") || strings.HasPrefix(name, "thrift.")) || fn.Name() == "init" {
+				continue
+			}
+			for _, blk := range fn.Blocks {
+				for _, in := range blk.Instrs {
+					ld, ok := in.(*ssa.UnOp)
+					if !ok || ld.Op != token.MUL {
+						continue
+					}
+					g, ok := ld.X.(*ssa.Global)
+					if !ok || g.Pkg != fn.Pkg {
+						continue
+					}
+					if _, isMap := ld.Type().Underlying().(*types.Map); !isMap || ld.Referrers() == nil {
+						continue
+					}
+					n++
+					for _, ref := range *ld.Referrers() {
+						switch x := ref.(type) {
+						case *ssa.Lookup, *ssa.Range, *ssa.DebugRef:
+						case *ssa.Call:
+							if bi, isB := x.Common().Value.(*ssa.Builtin); !isB || bi.Name() != "len" {
+								bad = c.InstrPos(ref) + " (" + name + ": " + g.Name() + ")"
+							}
+						default:
+							bad = c.InstrPos(ref) + " (" + name + ": " + g.Name() + ")"
+						}
+					}
+				}
+			}
+		}
+		switch {
+		case bad != "":
+			b.addP(props, core.Violation, key, bad, "the value of a package-level map is copied out at "+bad+" (stored, passed on or returned) instead of being read in place: every caller that receives it holds the same map — a nil map[string]any destination given {} aliases one process-wide map, into which the next decode of any goroutine writes its members")
+		default:
+			b.addP(props, core.Discharged, key, "-", fmt.Sprintf("%d loads of package-level maps in json, proto and thrift: each only looked up, ranged over or measured", n))
+		}
+	}
+	// (ab) the struct decoder skips a field it does not know by consuming its payload: every wire
+	// type its skip switch accepts has an arm that reads something (a varint, a length, four or eight
+	// bytes); anything else is ErrWireTypeUnknown. An arm that accepts a wire type and consumes
+	// nothing (the group markers 3 and 4) makes Unmarshal take tags that Parse and Scan reject, and
+	// lets the fields inside an undeclared group leak into the target.
+	{
+		props := []string{"C07", "C12"}
+		key := "unknown-field-skip:every-accepted-wire-type-consumes"
+		var fn *ssa.Function
+		for _, f := range c.RepoFunctions() {
+			if f.Parent() != nil && f.Parent().Name() == "structDecodeFuncOf" && f.Blocks != nil {
+				fn = f
+			}
+		}
+		if fn == nil {
+			b.addP(props, core.Undecided, key, "-", "the closure of proto.structDecodeFuncOf not found")
+		} else {
+			// the value the skip switch dispatches on: compared with wire type constants, in a block
+			// from which ErrWireTypeUnknown is reachable as the default
+			count := map[ssa.Value]int{}
+			for _, blk := range fn.Blocks {
+				for _, in := range blk.Instrs {
+					if bo, ok := in.(*ssa.BinOp); ok && bo.Op == token.EQL && strings.HasSuffix(bo.X.Type().String(), "proto.wireType") {
+						if _, isK := constInt(bo.Y); isK {
+							count[bo.X]++
+						}
+					}
+				}
+			}
+			var wt ssa.Value
+			for v, k := range count {
+				if wt == nil || k > count[wt] {
+					wt = v
+				}
+			}
+			if wt == nil {
+				b.addP(props, core.Undecided, key, c.FuncPos(fn), "no switch over a wire type found in the struct decoder")
+			} else {
+				universe := []int64{0, 1, 2, 3, 4, 5, 6, 7}
+				flow := constFlow(fn, wt, universe)
+				other := uint32(1) << uint(len(universe))
+				n, bad := 0, ""
+				for _, blk := range fn.Blocks {
+					set, ok := flow[blk]
+					if !ok || set == 0 || set&other != 0 || popcount(set) > 3 {
+						continue
+					}
+					// only the arms of the switch itself: blocks entered straight from a comparison of wt
+					arm := false
+					for _, p := range blk.Preds {
+						if len(p.Instrs) > 0 {
+							if ifi, isIf := p.Instrs[len(p.Instrs)-1].(*ssa.If); isIf {
+								if bo, isBO := ifi.Cond.(*ssa.BinOp); isBO && bo.X == wt && p.Succs[0] == blk {
+									arm = true
+								}
+							}
+						}
+					}
+					if !arm {
+						continue
+					}
+					n++
+					consumes := false
+					for _, in := range blk.Instrs {
+						if _, isCall := in.(*ssa.Call); isCall {
+							consumes = true
+						}
+						if ld, isLd := in.(*ssa.UnOp); isLd && ld.Op == token.MUL {
+							if g, isG := ld.X.(*ssa.Global); isG && strings.HasPrefix(g.Name(), "Err") {
+								consumes = true // the arm that refuses
+							}
+						}
+					}
+					if !consumes {
+						var which []string
+						for i, k := range universe {
+							if set&(1<<uint(i)) != 0 {
+								which = append(which, fmt.Sprint(k))
+							}
+						}
+						bad = fmt.Sprintf("%s: wire type(s) %s", c.InstrPos(blk.Instrs[0]), strings.Join(which, ", "))
+					}
+				}
+				// an empty arm has no block of its own: the true edge of its comparison goes straight
+				// to the block where the arms join
+				for _, p := range fn.Blocks {
+					if len(p.Instrs) == 0 {
+						continue
+					}
+					ifi, isIf := p.Instrs[len(p.Instrs)-1].(*ssa.If)
+					if !isIf {
+						continue
+					}
+					bo, isBO := ifi.Cond.(*ssa.BinOp)
+					if !isBO || bo.X != wt || bo.Op != token.EQL {
+						continue
+					}
+					k, isK := constInt(bo.Y)
+					if !isK {
+						continue
+					}
+					succ := p.Succs[0]
+					for _, q := range succ.Preds {
+						if len(q.Instrs) == 0 {
+							continue
+						}
+						if _, fromJump := q.Instrs[len(q.Instrs)-1].(*ssa.Jump); fromJump {
+							n++
+							bad = fmt.Sprintf("%s: wire type %d", c.InstrPos(ifi), k)
+						}
+					}
+				}
+				switch {
+				case n == 0:
+					b.addP(props, core.Undecided, key, c.FuncPos(fn), "no arm of the wire type switch identified")
+				case bad != "":
+					b.addP(props, core.Violation, key, bad, "the skip switch of the struct decoder accepts "+bad+" without consuming anything: a tag with that wire type on an undeclared field number is taken as a field without payload, so Unmarshal accepts input that Parse and Scan reject (invalid wire type), and the fields between a group's start and end markers are decoded into the target as if they were its own")
+				default:
+					b.addP(props, core.Discharged, key, c.FuncPos(fn), fmt.Sprintf("%d arms of the skip switch, each reads a payload or refuses", n))
+				}
+			}
+		}
+	}
+	// (ac) the pointer decoder allocates what its pointer points to — the element type, one level
+	// down. Allocating the base type of a **T (a T where a *T is stored) hides the inner pointer from
+	// the collector when T's first word is not a pointer, and overflows the allocation when T is
+	// smaller than a pointer.
+	{
+		props := []string{"C07", "C03"}
+		key := "pointer-decoder:allocates-the-element-type"
+		fn := c.Lookup("proto.pointerDecodeFuncOf")
+		if fn == nil {
+			b.addP(props, core.Undecided, key, "-", "proto.pointerDecodeFuncOf not found")
+		} else {
+			var tp *ssa.Parameter
+			for _, p := range fn.Params {
+				if strings.HasSuffix(p.Type().String(), "reflect.Type") {
+					tp = p
+				}
+			}
+			n, bad := 0, ""
+			for _, f := range append([]*ssa.Function{fn}, fn.AnonFuncs...) {
+				for _, ci := range callsIn(f) {
+					cn := calleeName(ci.Common())
+					if cn != "reflect.New" && !strings.HasSuffix(cn, "unsafe_New") {
+						continue
+					}
+					n++
+					okT, other := false, false
+					for _, o := range origins(ci.Common().Args[0]) {
+						if o == ssa.Value(tp) {
+							continue // the variable's value before it is reassigned
+						}
+						if call, isC := o.(*ssa.Call); isC && call.Common().IsInvoke() && call.Common().Method.Name() == "Elem" {
+							okT = true
+						} else {
+							other = true
+						}
+					}
+					okT = okT && !other
+					if !okT {
+						bad = c.InstrPos(ci)
+					}
+				}
+			}
+			switch {
+			case n == 0:
+				b.addP(props, core.Undecided, key, c.FuncPos(fn), "pointerDecodeFuncOf allocates nothing with reflect.New")
+			case bad != "":
+				b.addP(props, core.Violation, key, bad, "the pointer decoder allocates something other than t.Elem() of the pointer type it was built for: for a **T field the object that must hold a *T is allocated as a T — a pointer stored where the collector sees no pointer (use after free), or 8 bytes written into a smaller allocation")
+			default:
+				b.addP(props, core.Discharged, key, c.FuncPos(fn), "what is allocated is t.Elem()")
+			}
 		}
 	}
 	// (a) proto's entry points describe the value to the codec with the same constant flags: Size,
